@@ -87,6 +87,8 @@ class Machine(base.Machine):
 
     def _gen_fault(self, rng):
         op = super()._gen_fault(rng)
+        if op["fault"] in ("rejected_mode_no",):
+            return op
         if op["fault"] in ("callback_raise", "errstate"):
             op = {"fault": "global_rng", "k": rng.randint(0, 2 ** 31), "n": rng.randint(0, 50)}
         if op["fault"] == "rejected_set" and op["param"] == "nugget":
